@@ -60,6 +60,12 @@ Section Arith.
     let w' := match w with None => ones R | Some v => v end in
     if all_ones w' then (ones R, fs) else (ones R, absorb_last w' fs).
 
+  (* ... and since commit 3de556b, `if normalize_factors: kt = cp_normalize(kt)` before returning (default False);
+     cp_normalize is an arbitrary function here (it divides by norms: outside the ring regime) *)
+  Definition init_cp_norm (normalize : bool) (normf : list F * list matrix -> list F * list matrix)
+      (R : nat) (w : option (list F)) (fs : list matrix) : list F * list matrix :=
+    if normalize then normf (init_cp R w fs) else init_cp R w fs.
+
   (* the defect repaired by commit f5af379, kept as an executable foil for the correspondence's
      sensitivity self-test: weights absorbed into EVERY factor *)
   Definition init_cp_every (R : nat) (w : list F) (fs : list matrix) : list F * list matrix :=
@@ -83,6 +89,11 @@ Section Arith.
 
   Definition tucker_entry_dense (core : tensor F) (fs : list matrix) : tensor F :=
     multi_mode_dot core fs (seq 0 (length fs)).
+
+  (* specification predicate: the first c columns of A are orthonormal, A^T A = I_c *)
+  Definition orthonormal_cols (c : nat) (A : matrix) : Prop :=
+    forall i j, i < c -> j < c ->
+      bigsum F zero add (length A) (fun k => mul (mget A k i) (mget A k j)) = if Nat.eqb i j then one else zero.
 
   (* --- PARAFAC2: entry (i,j,k) of the tensor represented by (w; A, B, C; P_i) :
          X_i = P_i B diag(w * a_i) C^T *)
@@ -114,6 +125,9 @@ Definition drops_last (a : algo) : bool := match a with NNHals => false | _ => t
    pseudo_inverse); with an empty mode list and a positive budget the call raises *)
 Definition needs_mode (a : algo) (tol : bool) : bool :=
   match a with Constrained | NTDHals => true | _ => tol end.
+(* `if not modes: return CPTensor((weights, factors))` -- non_negative_parafac_hals (the only CP variant that can be left
+   without a mode to update by a duplicate-free request, because it does not un-fix the last mode); commit c3946df *)
+Definition empty_returns (a : algo) : bool := match a with NNHals => true | _ => false end.
 (* non_negative_parafac re-normalises inside the sweep (after every mode but the last) *)
 Definition inner_norm (a : algo) : bool := match a with NNParafac | NNHals => true | _ => false end.
 
@@ -150,7 +164,8 @@ Section Skel.
   Definition run (a : algo) (n : nat) (fixed : list nat) (budget : nat) (tol : bool) (s : st) : res st :=
     if shortcut a && list_eqb fixed (seq 0 n) then Ok s
     else let ml := modes_list a n fixed in
-         if needs_mode a tol && Nat.ltb 0 budget && Nat.eqb (length ml) 0 then Err
+         if empty_returns a && Nat.eqb (length ml) 0 then Ok s
+         else if needs_mode a tol && Nat.ltb 0 budget && Nat.eqb (length ml) 0 then Err
          else Ok (iterate a budget 0 ml s).
 End Skel.
 Arguments st : clear implicits.
@@ -159,7 +174,8 @@ Arguments st : clear implicits.
 Definition touched (a : algo) (n : nat) (fixed : list nat) (budget : nat) (tol : bool) : res (list nat) :=
   if shortcut a && list_eqb fixed (seq 0 n) then Ok []
   else let ml := modes_list a n fixed in
-       if needs_mode a tol && Nat.ltb 0 budget && Nat.eqb (length ml) 0 then Err
+       if empty_returns a && Nat.eqb (length ml) 0 then Ok []
+       else if needs_mode a tol && Nat.ltb 0 budget && Nat.eqb (length ml) 0 then Err
        else Ok (if Nat.eqb budget 0 then [] else ml).
 
 (* ------------------------------------------------------------------ tucker(fixed_factors=...) list surgery *)
@@ -184,19 +200,22 @@ Section TuckerLists.
   (* the list part of tucker(..., fixed_factors): `partial` stands for partial_tucker on the free modes *)
   Definition tucker_fixed_lists (fixed : list nat) (fs : list M) (partial : list nat -> list M -> list M) : res (list M) :=
     let fx := py_sorted fixed in
+    (* `if all(i in fixed_factors for i in range(len(factors))): return TuckerTensor((core, list(factors)))`  (commit b6b5914) *)
+    if forallb (fun i => memb i fx) (seq 0 (length fs)) then Ok fs else
     let fixedp := pick (fun i => memb i fx) 0 fs in
     let freep := pick (fun i => negb (memb i fx)) 0 fs in
     match freep with
-    | [] => Err                                  (* unpacking `modes, factors` from an empty zip raises ValueError *)
+    | [] => Err                                  (* unpacking `modes, factors` from an empty zip would raise: unreachable now *)
     | _ => reinsert fx (map snd fixedp) (partial (map fst freep) (map snd freep))
     end.
 End TuckerLists.
 
 (* ------------------------------------------------------------------ tucker(fixed_factors=...), the whole function
      fixed_factors = sorted(fixed_factors)
+     if all(i in fixed_factors for i in range(len(factors))): return TuckerTensor((core, list(factors)))
      modes_fixed, factors_fixed = zip-star of [(i, f) for (i, f) in enumerate(factors) if i in fixed_factors]
      core = multi_mode_dot(core, factors_fixed, modes=modes_fixed)
-     modes, factors = zip-star of [(i, f) for (i, f) in enumerate(factors) if i not in fixed_factors]   -- ValueError if empty
+     modes, factors = zip-star of [(i, f) for (i, f) in enumerate(factors) if i not in fixed_factors]
      (core, new_factors), _ = partial_tucker(tensor, rank, modes, init=(core, list(factors)), ...)
      factors = list(new_factors); for i, e in enumerate(fixed_factors): factors.insert(e, factors_fixed[i])
      core = multi_mode_dot(core, factors_fixed, modes=modes_fixed, transpose=True)
@@ -207,6 +226,7 @@ Section TuckerFull.
   Definition tucker_fixed (core : tensor F) (fs : list (@matrix F)) (fixed : list nat)
       (pt : tensor F -> list nat -> list (@matrix F) -> tensor F * list (@matrix F)) : res (tensor F * list (@matrix F)) :=
     let fx := py_sorted fixed in
+    if forallb (fun i => memb i fx) (seq 0 (length fs)) then Ok (core, fs) else
     let fixedp := pick (fun i => memb i fx) 0 fs in
     let freep := pick (fun i => negb (memb i fx)) 0 fs in
     match freep with
@@ -259,6 +279,7 @@ Section P2Init.
 End P2Init.
 Arguments p2st : clear implicits.
 Arguments p2init : clear implicits.
+Arguments mkp2 {F PT}.
 
 (* the main loop of parafac2: every iteration starts with
      factors[1] = factors[1] * reshape(weights, (1, -1)); weights = ones(weights.shape)
@@ -272,14 +293,14 @@ Section P2Skel.
   Variable normalize : bool.
 
   Definition p2_absorb (R : nat) (s : p2st F PT) : p2st F PT :=
-    mkp2 _ (ones one R) (absorb_at mul 1 (p2w s) (p2f s)) (p2P s).
+    mkp2 (ones one R) (absorb_at mul 1 (p2w s) (p2f s)) (p2P s).
 
   Fixpoint p2_iterate (R budget it : nat) (s : p2st F PT) : p2st F PT :=
     match budget with
     | 0 => s
     | S b => let s0 := p2_absorb R s in
              let r := upd it s0 in
-             let s1 := mkp2 _ (p2w s0) (fst r) (snd r) in
+             let s1 := mkp2 (p2w s0) (fst r) (snd r) in
              let s2 := if normalize then normf s1 else s1 in
              if stop it s2 then s2 else p2_iterate R b (S it) s2
     end.
